@@ -202,15 +202,31 @@ def _batch(seed, start, count):
     return res
 
 
-def real_case(cfg):
+def real_case(cfg, pin=None):
+    """pin: None, or a value in (1-2e-4, 1): once, late in the run, the temperature the reweighter recorded is replaced by
+    `pin` (an injected reweighter decision inside the last 2e-4 below one, which ordinary runs step over).  Whatever the
+    reweighter recorded for an iteration with beta > 0 must be exactly what that iteration commits."""
     from tempest.steps.reweight import Reweighter
+    from tempest.state_manager import StateManager
     c = runs.full(cfg)
     np.random.seed(c["seed"])
     s, t, like, pt = runs.build(c)
     bad = []
-    stats = dict(iters=0, advanced=0, limits=0)
+    stats = dict(iters=0, advanced=0, limits=0, commits=0, pinned=0)
     limits = []
+    recorded = {}
     with attach.Hooks() as hk:
+        def commit_before(self, *a, **k):
+            if self is not s.state or "beta" not in recorded:
+                return
+            cur = {k2: self.get_current(k2) for k2 in ("beta", "logz", "ess")}
+            stats["commits"] += 1
+            if recorded["beta"] > 0:
+                for k2 in ("beta", "ess", "logz"):
+                    if float(cur[k2]) != float(recorded[k2]) and len(bad) < 10:
+                        bad.append(("committed-other-temperature", f"iteration {stats['iters']}: the reweighting step recorded {k2}={recorded[k2]!r} "
+                                    f"(beta={recorded['beta']!r}) but the iteration commits {k2}={float(cur[k2])!r}"))
+        hk.wrap(StateManager, "commit_current_to_history", before=commit_before)
         hk.wrap(Reweighter, "_find_beta_upper_limit", after=lambda ctx, r, *a, **k: limits.append(float(r)))
 
         def before(self):
@@ -232,6 +248,12 @@ def real_case(cfg):
             for kv in judge((logl, betas, logzs), beta_prev, c["ess_ratio"] * c["N"], c["volume_variation"] is not None, rec, w, limits[-1] if limits else None):
                 if len(bad) < 10:
                     bad.append((kv[0], kv[1] + f" [iteration {stats['iters']}]"))
+            if pin is not None and not stats["pinned"] and rec["beta"] >= 0.5:
+                self.state.set_current("beta", float(pin))       # injected decision of the reweighting step
+                rec = dict(rec, beta=float(pin))
+                stats["pinned"] = 1
+            recorded.clear()
+            recorded.update(rec)
         hk.wrap(Reweighter, "run", before=before, after=after)
         attach.iteration_budget(hk, 400)
         try:
@@ -283,11 +305,12 @@ def run():
                     ck.violation(key, what, dict(sequence_seed=sd, case=desc))
     rt = []
     nr = ck.pick(24, 400)
+    pins = [None, 1 - 5e-5, None, 1 - 1e-6, 1 - 1.5e-4, None]
     for i in range(nr):
         cfg = dict(runs.small_cfg(i), seed=ck.subseed("real", i))
         cfg["ess_ratio"] = [2.0, 1.0, 3.5, 0.5][i % 4]
         cfg["volume_variation"] = [None, 1.0, None, 0.3, 5.0][i % 5]
-        rt.append(("tvf.checks.c05:real_case", dict(cfg=cfg), None))
+        rt.append(("tvf.checks.c05:real_case", dict(cfg=cfg, pin=pins[i % len(pins)]), None))
     for i, st, val in farm.run(rt, timeout=900, progress="C05-runs"):
         cfg = rt[i][1]["cfg"]
         if st == "timeout":
@@ -301,6 +324,8 @@ def run():
         ck.event("monitored real runs")
         ck.event("real-run Reweighter.run invocations judged", stats["iters"])
         ck.event("real-run iterations on which beta advanced", stats["advanced"])
+        ck.event("real-run commits compared with what the reweighting step recorded", stats.get("commits", 0))
+        ck.event("real runs with an injected reweighter decision inside the last 2e-4 below one", stats.get("pinned", 0))
         seen = set()
         for key, what in bad:
             if key not in seen:
